@@ -32,8 +32,8 @@ use std::time::{Duration, Instant};
 pub const BUILT: bool = true;
 
 const MEM_LIMIT: isize = 1 << 30; // 1 GiB of live heap per worker
-const DEADLINE_CPU_S: f64 = 5.0; // per case
-const DEADLINE_WALL_S: f64 = 20.0; // per case when the machine starves the worker
+const DEADLINE_CPU_S: f64 = 20.0; // per case (user CPU; 5 s proved too tight on a heavily shared machine: a 0.6 s case was measured at 6 s)
+const DEADLINE_WALL_S: f64 = 60.0; // per case when the machine starves the worker
 const CHUNK: u64 = 256;
 
 // =====================================================================================
@@ -3147,7 +3147,7 @@ impl FamAcc {
             self.violation(r.key.clone(), r.idx, format!("{} (driver phase {})", r.detail, r.phase));
         }
         if r.cpu_us as f64 > DEADLINE_CPU_S * 1e6 {
-            self.violation("C01/deadline:case-completed-after-more-than-5s-cpu".into(), r.idx, format!("case took {:.1} s of CPU", r.cpu_us as f64 / 1e6));
+            self.violation("C01/deadline:case-completed-after-more-than-20s-cpu".into(), r.idx, format!("case took {:.1} s of CPU", r.cpu_us as f64 / 1e6));
         }
     }
     fn record_single(&mut self, idx: u64, s: Single) -> Option<String> {
